@@ -26,10 +26,20 @@ type Event struct {
 
 // SimAddr is the address of a simulated connection; it carries the
 // connection id so that callbacks know which connection they run for.
-type SimAddr struct{ ID int }
+type SimAddr struct {
+	ID int
+	// Anon: the address prints like that of a peer on a unix-domain socket or an
+	// in-memory pipe - the same text for every connection
+	Anon bool
+}
 
 func (a SimAddr) Network() string { return "sim" }
-func (a SimAddr) String() string  { return fmt.Sprintf("sim:%d", a.ID) }
+func (a SimAddr) String() string {
+	if a.Anon {
+		return "@"
+	}
+	return fmt.Sprintf("sim:%d", a.ID)
+}
 
 var (
 	errSimReset  = errors.New("sim: connection reset by peer")
@@ -534,13 +544,13 @@ func (c *SimConn) Close() error {
 	return nil
 }
 
-func (c *SimConn) LocalAddr() net.Addr { return SimAddr{-1} }
+func (c *SimConn) LocalAddr() net.Addr { return SimAddr{ID: -1} }
 func (c *SimConn) RemoteAddr() net.Addr {
 	// (the first thing the connection's own goroutine does with its connection:
 	// under the scheduler it becomes this connection's task here, so that what
 	// it does before its first read can be interleaved with Close callers)
 	c.rt.K.StartTask(c.task, "conn.start")
-	return SimAddr{c.ID}
+	return SimAddr{ID: c.ID, Anon: c.rt.C.Server.SameAddr}
 }
 func (c *SimConn) SetDeadline(t time.Time) error      { c.Deadlines++; c.rdl, c.wdl = t, t; return nil }
 func (c *SimConn) SetReadDeadline(t time.Time) error  { c.Deadlines++; c.rdl = t; return nil }
@@ -659,4 +669,4 @@ func (l *SimListener) Close() error {
 }
 
 // Addr implements net.Listener.
-func (l *SimListener) Addr() net.Addr { return SimAddr{-2} }
+func (l *SimListener) Addr() net.Addr { return SimAddr{ID: -2} }
